@@ -96,6 +96,36 @@ pub fn check_step(ctx: &mut Ctx, s: &Step) -> Result<(), Violation> {
             hs.push((f.get_hash(), "Board::from_str"));
         }
     }
+    // ... and through the deprecated castle-rights mutators: a right removed and added back (alone
+    // or as part of `Both`) leaves the same position
+    #[allow(deprecated)]
+    {
+        use chess::CastleRights;
+        for (ci, c) in [Col::W, Col::B].into_iter().enumerate() {
+            let lc = bridge::col(c);
+            let (k, q) = (p.castle[2 * ci], p.castle[2 * ci + 1]);
+            let mut chains: Vec<(CastleRights, CastleRights)> = vec![];
+            if k {
+                chains.push((CastleRights::KingSide, CastleRights::KingSide));
+            }
+            if q {
+                chains.push((CastleRights::QueenSide, CastleRights::QueenSide));
+            }
+            if k && q {
+                chains.push((CastleRights::KingSide, CastleRights::Both));
+                chains.push((CastleRights::QueenSide, CastleRights::Both));
+                chains.push((CastleRights::Both, CastleRights::Both));
+            }
+            for (rm, add) in chains {
+                let mut e = *s.board;
+                e.remove_castle_rights(lc, rm);
+                e.add_castle_rights(lc, add);
+                if e.castle_rights(lc) == s.board.castle_rights(lc) && !hs.iter().any(|x| x.0 == e.get_hash()) {
+                    hs.push((e.get_hash(), "remove_castle_rights then add_castle_rights"));
+                }
+            }
+        }
+    }
     if hs.len() > 1 {
         ctx.class("position:construction-paths-disagree-on-hash(C08's business; all are compared)");
     }
@@ -208,7 +238,7 @@ pub fn check_step(ctx: &mut Ctx, s: &Step) -> Result<(), Violation> {
     let held: Vec<usize> = (0..4).filter(|&i| base.castle[i]).collect();
     if !held.is_empty() {
         let n = held.len();
-        let mut seen = vec![(h, base.castle)];
+        let mut seen: Vec<(u64, [bool; 4])> = hs.iter().map(|x| (x.0, base.castle)).collect();
         for mask in 0..(1u32 << n) - 1 {
             let mut x = base.clone();
             for (j, &i) in held.iter().enumerate() {
